@@ -181,3 +181,112 @@ Theorem C11_resegment_file_conserves :
   exists first others, segs = first :: others /\ segs_start_ok d 1 others.
 Proof. exact resegment_file_conserves. Qed.
 Print Assumptions C11_resegment_file_conserves.
+
+(* ====================================================================================================
+   Composition with C09 (sample tables = naive expansion) and C05 (fragment add-history -> encode -> decode ->
+   GetFullSamples = added samples).  The names of C09Model/C05Model shadow some of C11Model's from here on
+   (range, trex, fs_dts, t_stss ...): C11Model's are written qualified below. *)
+From V.c09 Require Import C09Model C09Spec.
+From V.c05 Require Import C05Model C05FragModel C05ReadProofs C05RoundProofs.
+From V.c11 Require Import C11FetchModel C11Spec C11FetchProofs C11PipeProofs.
+
+(* ---- (a) the segmenter's per-sample fetch = sample n of the expansion ----
+   For every consistent set of sample tables (C09Spec.consistent) that point into the file (data_ok), mdat in
+   memory or decoded lazily: what GetFullSamplesForInterval builds for sample number n (chunk lookup in stsc,
+   chunk offset from stco/co64 plus the sizes of the chunk's earlier samples, size from stsz, decode time and
+   duration from stts, composition offset from ctts, flags from stss/sdtp, bytes from mdat.Data or the
+   ReadSeeker) is sample n of the naive expansion: S_full = (S_flags, S_dur, S_size, S_cto, S_decode_time, bytes at
+   S_offset_of). *)
+Theorem C11_fetch_full_sample : forall (f : pfile) (tb : tables),
+  C09Spec.consistent tb = true -> data_ok f tb = true ->
+  forall n, 1 <= n <= nsamples tb ->
+  exists s, S_full f tb n = Some s /\ fetch_full_sample f tb n = Ok s.
+Proof. exact fetch_full_sample_ok. Qed.
+Print Assumptions C11_fetch_full_sample.
+
+Theorem C11_fetch_interval : forall (f : pfile) (tb : tables),
+  C09Spec.consistent tb = true -> data_ok f tb = true ->
+  forall a b, 1 <= a -> a <= b + 1 -> b <= nsamples tb ->
+  exists l, fetch_interval f tb a b = Ok l /\ map Some l = S_interval f tb a b.
+Proof. exact fetch_interval_ok. Qed.
+Print Assumptions C11_fetch_interval.
+
+(* GetSamplesForInterval (the -lazy writer): the same metadata, without decode time and bytes *)
+Theorem C11_fetch_meta_interval : forall (tb : tables), C09Spec.consistent tb = true ->
+  forall a b, 1 <= a -> a <= b + 1 -> b <= nsamples tb ->
+  exists l, fetch_meta_interval tb a b = Ok l /\
+            map Some l = map (fun n => option_map meta_sample (S_meta tb n)) (seqN a (N.to_nat (b + 1 - a))).
+Proof. exact fetch_meta_interval_ok. Qed.
+Print Assumptions C11_fetch_meta_interval.
+
+(* the hypotheses C05's round trip needs of the samples added to a fragment hold for every run of consecutive
+   samples of the expansion: Sample.Size = len(Data), decode times consistent with the durations (no uint64 wrap) *)
+Theorem C11_expansion_roundtrip_hyps : forall (f : pfile) (tb : tables),
+  C09Spec.consistent tb = true -> data_ok f tb = true ->
+  forall k nr l, 1 <= nr -> nr + N.of_nat k <= nsamples tb + 1 ->
+  map Some l = map (S_full f tb) (seqN nr k) ->
+  Forall sized_f l /\ C05RoundProofs.consistent l.
+Proof.
+  intros f tb H Hd k nr l H1 H2 Hl. split.
+  - exact (expansion_sized f tb H Hd k nr l H1 H2 Hl).
+  - exact (expansion_consistent f tb H k nr l H1 Hl).
+Qed.
+Print Assumptions C11_expansion_roundtrip_hyps.
+
+(* ---- (b) makeSingleTrackSegments end to end, one track ----
+   seg_track: for every interval, GetFullSamplesForInterval, (skip when empty), CreateFragment +
+   AddFullSampleToTrack per sample, Fragment.Encode (optimisation on or off); read_back: DecodeFile's view of
+   the written fragment at ANY file position pos0 + Fragment.GetFullSamples(trex of the track).
+   For every consistent track, ANY intervals that tile 1..N: if the writer returns without error and every
+   fragment stays below 2 GiB (seg_guard: int32 trun data offsets; beyond it the real code wraps, known finding
+   C05-F5), then reading the segments back in order gives exactly the expansion of the input track - bytes,
+   size, duration, flags, composition offset, decode time - and no segment file is empty. *)
+Theorem C11_segmenter_track_end_to_end :
+  forall opt (f : pfile) (tb : tables) T pos0 (tx : C05Model.trex) ivs fes,
+  C09Spec.consistent tb = true -> data_ok f tb = true -> tx_track tx = T ->
+  concat (map C11Model.range ivs) = seqN1 (nsamples tb) ->
+  seg_track opt f tb T ivs = Ok fes ->
+  Forall (fun fe => seg_guard pos0 fe = true) fes ->
+  exists outs, read_all (read_back tx pos0 []) fes = Ok outs /\
+               map Some (concat outs) = expansion f tb /\ Forall (fun o => o <> []) outs.
+Proof. exact seg_track_end_to_end. Qed.
+Print Assumptions C11_segmenter_track_end_to_end.
+
+(* the whole tool: for every progressive file (any number of tracks with consistent tables pointing into the
+   file), every target duration d: whatever plan the tool computes (segment_plan = Ok: C11_intervals_tile applies),
+   every track's segments read back as that track's expansion *)
+Theorem C11_segmenter_end_to_end : forall (f : pfile) (trs : list itrack) d ivss,
+  Forall (fun t => C09Spec.consistent (snd t) = true /\ data_ok f (snd t) = true) trs ->
+  segment_plan (map itrack_of trs) d = Ok ivss ->
+  Forall2 (fun t ivs => forall opt T pos0 (tx : C05Model.trex) fes,
+             tx_track tx = T -> seg_track opt f (snd t) T ivs = Ok fes ->
+             Forall (fun fe => seg_guard pos0 fe = true) fes ->
+             exists outs, read_all (read_back tx pos0 []) fes = Ok outs /\
+                          map Some (concat outs) = expansion f (snd t) /\
+                          Forall (fun o => o <> []) outs) trs ivss.
+Proof. exact plan_end_to_end. Qed.
+Print Assumptions C11_segmenter_end_to_end.
+
+(* the hypotheses are satisfiable: a 7-sample video track (3 stts runs, ctts, 2 stsc entries over 3 chunks at file
+   offsets 100/200/300, explicit sizes, stss [1;5], sdtp) in a 330-byte file, target duration 30 ms: two segments
+   (samples 1-4 and 5-7), both written and read back *)
+Definition ex_e2e_tb : tables :=
+  mkTables [3; 1; 3] [10; 20; 5]
+           (Some (mkCtts [0; 2; 7] [0%Z; (-3)%Z]))
+           (mkStsc [mkEntry 1 2 1; mkEntry 3 3 5] 0 [1; 2])
+           (mkStsz 0 7 [4; 5; 6; 7; 8; 9; 10])
+           (Some [100; 200; 300]) None
+           (Some [1; 5]) (Some [0; 16; 32; 64; 4; 8; 1]).
+Definition ex_e2e_file : pfile := mkPfile (map (fun i => N.of_nat i mod 256) (seq 0 330)) 8 322 false.
+Example C11_segmenter_end_to_end_example :
+  C09Spec.consistent ex_e2e_tb = true /\ data_ok ex_e2e_file ex_e2e_tb = true /\
+  segment_plan [itrack_of (true, 1000, ex_e2e_tb)] 30 = Ok [[(1, 4); (5, 7)]] /\
+  exists fes, seg_track false ex_e2e_file ex_e2e_tb 1 [(1, 4); (5, 7)] = Ok fes /\
+              forallb (seg_guard 24) fes = true /\
+              option_map (map (map fs_dts))
+                (match read_all (read_back (C05Model.mkTrex 1 0 0 0) 24 []) fes with Ok o => Some o | _ => None end)
+              = Some [[0; 10; 20; 30]; [50; 55; 60]].
+Proof.
+  split; [vm_compute; reflexivity|]. split; [vm_compute; reflexivity|]. split; [vm_compute; reflexivity|].
+  eexists. split; [vm_compute; reflexivity|]. split; vm_compute; reflexivity.
+Qed.
